@@ -223,7 +223,11 @@ func vfFullCase(f []string) string {
 		before := len(sent)
 		_ = c.Dispatch(pkt)
 		mid := len(sent)
-		ch.Tick(time.Now().Add(90 * time.Minute))
+		// the harness plays the runner — which is stopped together with the tunnel: an unregistered tunnel is
+		// never ticked again, what it owes must have left during Dispatch
+		if c.LookupTunnel(peer, 7) != nil {
+			ch.Tick(time.Now().Add(90 * time.Minute))
+		}
 		nrAfter := ch.Nr()
 		acked := false
 		for _, p := range sent[before:mid] {
